@@ -513,11 +513,12 @@ func (n *Node) Files(id uint64) ([]RealFile, error) {
 	return out, nil
 }
 
-// T0 is the concrete time of model clock 0; model clock k is T0 + k seconds.
+// T0 is the concrete time of model clock 0; model clock k is T0 + k * 400 ms, so that consecutive clock values
+// often fall into the same wall-clock second ("modified later than since" is a comparison of instants, not of seconds).
 var T0 = time.Unix(1000000000, 0).UTC()
 
 // ClockTime converts a model clock value.
-func ClockTime(k int) time.Time { return T0.Add(time.Duration(k) * time.Second) }
+func ClockTime(k int) time.Time { return T0.Add(time.Duration(k) * 400 * time.Millisecond) }
 
 // CheckLayout compares the real file set with the model's and, when they agree, sets every file's
 // modification time to the model's clock value (so that time-bounded backups are decided by the
